@@ -50,6 +50,9 @@ def cause_admissible(cause, refres):
 def oracle_termination(o):
     if o.status == 'deadlock':
         return [('deadlock', f'loop idle after {o.iters} iterations, run pending; parked={o.leftovers}')]
+    if o.status == 'cpu-limit':
+        return [('no-return', 'an engine callback consumed the whole CPU budget of the run without returning control '
+                              'to the event loop (endless loop inside the engine)')]
     if o.status == 'steplimit':
         return [('steplimit', f'no completion within {o.iters} loop iterations')]
     if o.status != 'done':
